@@ -889,6 +889,49 @@ func (ev *PEval) doCall(s *pstate, fr *frame, b, pred *ssa.BasicBlock, idx int, 
 			return true
 		}
 	}
+	// a call through a function value (e.g. a constructor taken from a lookup table): every
+	// function the call graph admits at this site is evaluated as an alternative
+	if callee == nil && !x.Call.IsInvoke() && ev.P != nil && fr.depth < ev.MaxDepth && !(ev.NoInlineInHavoc && s.havoc) {
+		var targets []*ssa.Function
+		if n := ev.P.CG().Nodes[fr.fn]; n != nil {
+			seenT := map[*ssa.Function]bool{}
+			for _, e := range n.Out {
+				if e.Site == ssa.CallInstruction(x) && e.Callee != nil && e.Callee.Func != nil && !seenT[e.Callee.Func] {
+					seenT[e.Callee.Func] = true
+					targets = append(targets, e.Callee.Func)
+				}
+			}
+		}
+		ok := len(targets) > 0 && len(targets) <= 12
+		for _, t := range targets {
+			if len(t.Blocks) == 0 || !ev.Inline(t) || (ev.InlineIf != nil && !ev.InlineIf(t, args)) {
+				ok = false
+			}
+		}
+		if ok {
+			sort.Slice(targets, func(i, j int) bool { return FnKey(targets[i]) < FnKey(targets[j]) })
+			for _, t := range targets {
+				ns := s.fork()
+				ev.call(ns, t, args, fr.depth+1, func(ns2 *pstate, res []AV, pan bool) {
+					if pan {
+						k(ns2, nil, true)
+						return
+					}
+					var rv AV
+					switch len(res) {
+					case 0:
+					case 1:
+						rv = res[0]
+					default:
+						rv = AV{K: KTuple, Elems: res}
+					}
+					ns2.env.m[x] = rv
+					ev.block(ns2, fr, b, pred, idx+1, k)
+				})
+			}
+			return true
+		}
+	}
 	s.env.m[x] = unknownResult(x.Type())
 	return false
 }
